@@ -8,7 +8,7 @@ From Coq Require Import ZifyBool.
 (** acknowledgement ids of the commands the worker has taken from the queue and not yet answered *)
 Definition inflight (ms : mstate) : list Z :=
   match wdel ms with
-  | Some (WDStore a _ _) | Some (WDWeight a _ _) | Some (WPAdmitted a _ _ _ _ _) => [a]
+  | Some (WDStore a _ _) | Some (WDWeight a _ _) | Some (WPCharged a _ _ _ _ _) => [a]
   | None => []
   end ++ match wpending (win ms) with Some p => [p_ack p] | None => [] end.
 
@@ -442,7 +442,7 @@ Qed.
 (** ** the invariant of the micro model *)
 Definition dl (ms : mstate) : list Z :=
   match wdel ms with
-  | Some (WDStore a _ _) | Some (WDWeight a _ _) | Some (WPAdmitted a _ _ _ _ _) => [a]
+  | Some (WDStore a _ _) | Some (WDWeight a _ _) | Some (WPCharged a _ _ _ _ _) => [a]
   | None => []
   end.
 
@@ -559,7 +559,7 @@ Lemma mput1_ainv : forall cfg ms orc k v id h w ttl a q c, AInv (mbase ms) [] ->
   queue (mbase ms) = (c, a) :: q ->
   let ms' := fst (mput1 cfg ms orc k v id h w ttl a q) in
   (wdel ms' = wdel ms /\ AInv (mbase ms') []) \/
-  (exists obs, wdel ms' = Some (WPAdmitted a k v id ttl obs) /\ AInv (mbase ms') [a]).
+  (exists obs, wdel ms' = Some (WPCharged a k v id ttl obs) /\ AInv (mbase ms') [a]).
 Proof.
   intros cfg ms orc k v id h w ttl a q c HA Hw Hq. unfold mput1. cbv zeta.
   destruct (amem k (store (set_queue (mbase ms) q))).
@@ -583,7 +583,7 @@ Proof.
 Qed.
 
 Lemma dl_some : forall ms d, wdel ms = Some d ->
-  dl ms = [match d with WDStore a _ _ | WDWeight a _ _ | WPAdmitted a _ _ _ _ _ => a end].
+  dl ms = [match d with WDStore a _ _ | WDWeight a _ _ | WPCharged a _ _ _ _ _ => a end].
 Proof. intros ms d H. unfold dl. rewrite H. destruct d; reflexivity. Qed.
 
 Lemma mworker1_ainv : forall cfg ms orc, MAInv ms -> MAInv (fst (mworker1 cfg ms orc)).
@@ -812,7 +812,7 @@ Qed.
 
 From CacheD.proofs Require MicroProofs.
 
-(** non-vacuity: the worker inside a put (admitted, not yet stored): the command is neither queued nor answered *)
+(** non-vacuity: the worker inside a put (let in, not yet stored): the command is neither queued nor answered *)
 Example ack_in_flight_witness :
   let evs := [MEnter 0 (RPutW 1 10 5) []; MStepC 0 []; MStepC 0 []; MStepC 0 []; MWorker1 MicroProofs.orc0] in
   let ms := mrun MicroProofs.mcfg evs in
